@@ -621,6 +621,9 @@ def solve_main(objfun, x0, argsf, xl, xu, projections, npt, rhobeg, rhoend, maxf
             # Estimate f in order to compute 'actual reduction'
             ratio, exit_info = control.calculate_ratio(control.model.xopt(abs_coordinates=True), current_iter, rvec_list[:num_samples_run, :], d, gopt, H)
             if exit_info is not None:
+                # The trial point has been evaluated but will not enter the model - keep it in case it is the best so far
+                control.model.save_point(x, np.mean(rvec_list[:num_samples_run, :], axis=0), num_samples_run, control.nx,
+                                         x_in_abs_coords=True)
                 if exit_info.able_to_do_restart() and params("restarts.use_restarts") and params(
                         "restarts.use_soft_restarts"):
                     number_of_samples = max(nsamples(control.delta, control.rho, current_iter, nruns_so_far), 1)
